@@ -2,15 +2,15 @@
 # tools/seedall.sh C01 C04 ... : validate every seed of the given properties and run that property's quick check against it
 cd "$(dirname "$0")/.."
 for id in "$@"; do
-  for d in /root/seeds_backup/$id/m*; do
+  for d in ${SEED_ROOT:-/root/seeds_backup}/$id/m*; do
     [ -d "$d" ] || continue
     k=$(basename $d)
-    python3 tools/seedtest.py $d --keep-as $id-$k ${SEED_ARGS:-} 2>&1 | python3 -c "
+    python3 tools/seedtest.py $d --keep-as $id-${SEED_TAG:-}$k ${SEED_ARGS:-} 2>&1 | python3 -c "
 import sys,json
 t=sys.stdin.read()
 try:
-    r=json.loads(t[t.index('{'):]); print('$id-$k', 'valid', r['valid'], {c:(v['detected'], v['exit'], v['lines'][:1], v['wall_s']) for c,v in r['checks'].items()})
+    r=json.loads(t[t.index('{'):]); print('$id-${SEED_TAG:-}$k', 'valid', r['valid'], {c:(v['detected'], v['exit'], v['lines'][:1], v['wall_s']) for c,v in r['checks'].items()})
 except Exception as e:
-    print('$id-$k', 'ERROR', t[-1500:])"
+    print('$id-${SEED_TAG:-}$k', 'ERROR', t[-1500:])"
   done
 done
